@@ -40,6 +40,27 @@ DATE_ATTRS = {"Initial Date", "Activation Date", "Process Start Date", "Protect 
 TAGS = {t.value: t for t in enums.AttributeType}
 
 
+def sample_value(name):
+    """a kind-correct sample AVal for an attribute name, or None when the attribute factory cannot build it"""
+    if name in ENUM_ATTRS:
+        return {"k": "enum", "v": list(ENUM_ATTRS[name])[0].value}
+    if name in INT_ATTRS:
+        return {"k": "int", "v": 12}
+    if name in TEXT_ATTRS:
+        return {"k": "text", "v": "1"}
+    if name in BOOL_ATTRS:
+        return {"k": "bool", "v": True}
+    if name in DATE_ATTRS:
+        return {"k": "date", "v": 1000}
+    if name == "Name":
+        return {"k": "name", "v": "n0", "t": 1}
+    if name == "Application Specific Information":
+        return {"k": "appinfo", "ns": "ssl", "d": "www"}
+    if name == "Cryptographic Parameters":
+        return {"k": "other"}
+    return None
+
+
 def quiet():
     logging.disable(logging.CRITICAL)
 
@@ -89,7 +110,22 @@ def build_primitive(ta):
     """2.0 form: the bare attribute primitive carrying its own tag."""
     name = ta["name"]
     tag = enums.Tags[enums.AttributeType(name).name]
-    return VF.create_attribute_value_by_enum(tag, attr_value_py(name, ta["value"]))
+    try:
+        return VF.create_attribute_value_by_enum(tag, attr_value_py(name, ta["value"]))
+    except NotImplementedError:
+        av = ta["value"]
+        k = av["k"]
+        if k == "enum":
+            return primitives.Enumeration(ENUM_ATTRS[name], value=ENUM_ATTRS[name](av["v"]), tag=tag)
+        if k == "int":
+            return primitives.Integer(av["v"], tag=tag)
+        if k == "text":
+            return primitives.TextString(av["v"], tag=tag)
+        if k == "bool":
+            return primitives.Boolean(av["v"], tag=tag)
+        if k == "date":
+            return primitives.DateTime(av["v"], tag=tag)
+        raise
 
 
 def build_template(t):
@@ -140,10 +176,24 @@ def build_secret(o):
 CP = cattr.CryptographicParameters
 
 
-def some_params():
-    return CP(block_cipher_mode=enums.BlockCipherMode.CBC, padding_method=enums.PaddingMethod.PKCS5,
-              hashing_algorithm=enums.HashingAlgorithm.SHA_256,
-              cryptographic_algorithm=enums.CryptographicAlgorithm.AES)
+def some_params(cp=None):
+    if cp is None:
+        return CP(block_cipher_mode=enums.BlockCipherMode.CBC, padding_method=enums.PaddingMethod.PKCS5,
+                  hashing_algorithm=enums.HashingAlgorithm.SHA_256,
+                  cryptographic_algorithm=enums.CryptographicAlgorithm.AES)
+
+    def e(E, k):
+        return None if cp.get(k) is None else E(cp[k])
+    return CP(block_cipher_mode=e(enums.BlockCipherMode, "mode"), padding_method=e(enums.PaddingMethod, "padding"),
+              hashing_algorithm=e(enums.HashingAlgorithm, "hash"),
+              cryptographic_algorithm=e(enums.CryptographicAlgorithm, "alg"),
+              digital_signature_algorithm=e(enums.DigitalSignatureAlgorithm, "dsa"),
+              tag_length=cp.get("taglen"), random_iv=cp.get("random_iv"))
+
+
+def hexb(it, key, default):
+    v = it.get(key)
+    return default if v is None else bytes.fromhex(v)
 
 
 def build_payload(it, version):
@@ -165,9 +215,11 @@ def build_payload(it, version):
     if op == "deriveKey":
         return enums.Operation.DERIVE_KEY, payloads.DeriveKeyRequestPayload(
             object_type=enums.ObjectType(it["otype"]), unique_identifiers=list(it["uids"]),
-            derivation_method=enums.DerivationMethod.HASH,
+            derivation_method=enums.DerivationMethod(it.get("method", 2)),
             derivation_parameters=cattr.DerivationParameters(
-                cryptographic_parameters=some_params(), derivation_data=b"\x01\x02"),
+                cryptographic_parameters=some_params(it.get("cp")), derivation_data=b"\x01\x02",
+                salt=b"salt1234" if it.get("method") in (1, 5) else None,
+                iteration_count=10 if it.get("method") == 1 else None),
             template_attribute=build_template(it["tmpl"]))
     if op == "locate":
         return enums.Operation.LOCATE, payloads.LocateRequestPayload(
@@ -222,15 +274,18 @@ def build_payload(it, version):
     if op in ("encrypt", "decrypt"):
         cls = payloads.EncryptRequestPayload if op == "encrypt" else payloads.DecryptRequestPayload
         return (enums.Operation.ENCRYPT if op == "encrypt" else enums.Operation.DECRYPT), cls(
-            unique_identifier=uid, cryptographic_parameters=some_params() if it["params"] else None,
-            data=b"\x00" * 16, iv_counter_nonce=b"\x00" * 16)
+            unique_identifier=uid, cryptographic_parameters=some_params(it.get("cp")) if it["params"] else None,
+            data=hexb(it, "data_hex", b"\x00" * 16),
+            iv_counter_nonce=None if it.get("iv_hex") == "" else hexb(it, "iv_hex", b"\x00" * 16),
+            **({"auth_tag": hexb(it, "tag_hex", None)} if op == "decrypt" and it.get("tag_hex") else {}))
     if op == "sign":
         return enums.Operation.SIGN, payloads.SignRequestPayload(
-            unique_identifier=uid, cryptographic_parameters=some_params() if it["params"] else None, data=b"abc")
+            unique_identifier=uid, cryptographic_parameters=some_params(it.get("cp")) if it["params"] else None,
+            data=hexb(it, "data_hex", b"abc"))
     if op == "signatureVerify":
         return enums.Operation.SIGNATURE_VERIFY, payloads.SignatureVerifyRequestPayload(
-            unique_identifier=uid, cryptographic_parameters=some_params() if it["params"] else None,
-            data=b"abc", signature_data=b"sig")
+            unique_identifier=uid, cryptographic_parameters=some_params(it.get("cp")) if it["params"] else None,
+            data=hexb(it, "data_hex", b"abc"), signature_data=hexb(it, "sig_hex", b"sig"))
     if op == "mac":
         params = None
         if it["alg"] is not None:
@@ -428,6 +483,48 @@ class FakeCrypto(object):
         return bytes.fromhex(self._script("mac")["t"])
 
 
+class RecordingCrypto(object):
+    """Wraps the real CryptographyEngine: every call is executed for real and its outcome is
+    recorded as the oracle value the Lean model is given for that batch item."""
+
+    METHODS = ["create_symmetric_key", "create_asymmetric_key_pair", "derive_key", "wrap_key", "encrypt", "decrypt",
+               "sign", "verify_signature", "mac"]
+
+    def __init__(self, owner, real):
+        self.owner = owner
+        self.real = real
+        self.calls = []
+
+    def __getattr__(self, name):
+        real = getattr(self.real, name)
+        if name not in self.METHODS:
+            return real
+        owner = self.owner
+
+        def call(*a, **kw):
+            try:
+                r = real(*a, **kw)
+            except exceptions.KmipError as e:
+                owner.record_crypto({"k": "kmip", "reason": e.reason.value})
+                raise
+            except Exception:
+                owner.record_crypto({"k": "internal"})
+                raise
+            if name == "create_symmetric_key":
+                owner.record_crypto({"k": "ok", "t": r["value"].hex()})
+            elif name == "create_asymmetric_key_pair":
+                owner.record_crypto({"k": "ok2", "pub": r[0]["value"].hex(), "priv": r[1]["value"].hex(),
+                                     "pubfmt": r[0]["format"].value, "privfmt": r[1]["format"].value})
+            elif name == "encrypt":
+                owner.record_crypto({"k": "ok", "t": r["cipher_text"].hex()})
+            elif name == "verify_signature":
+                owner.record_crypto({"k": "verdict", "v": bool(r)})
+            else:
+                owner.record_crypto({"k": "ok", "t": bytes(r).hex()})
+            return r
+        return call
+
+
 class Clock(object):
     """Replacement for the `time` module inside engine.py (deterministic clock)."""
 
@@ -493,6 +590,8 @@ class ImplEngine(object):
         self.engine = engine_mod.KmipEngine(policies=self.policies, database_path=self.db)
         if self.scripted:
             self.engine._cryptography_engine = FakeCrypto(self)
+        else:
+            self.engine._cryptography_engine = RecordingCrypto(self, self.engine._cryptography_engine)
         orig = self.engine._process_operation
         me = self
 
@@ -535,6 +634,11 @@ class ImplEngine(object):
         self.policies = policies_from_json(pj)
         self.engine._operation_policies = self.policies
 
+    def record_crypto(self, outcome):
+        """real backend: remember what it answered for the current item (first call wins)"""
+        if 0 <= self._item < len(self._recorded) and self._recorded[self._item] is None:
+            self._recorded[self._item] = outcome
+
     def current_script(self):
         if 0 <= self._item < len(self._scripts):
             return self._scripts[self._item]
@@ -544,6 +648,7 @@ class ImplEngine(object):
     def request(self, now, ident, req):
         self.clock.now = now
         self._scripts = [it.get("crypto") for it in req["items"]]
+        self._recorded = [None] * len(req["items"])
         self._item = -1
         self.internal_errors = []
         msg = build_request(req)
@@ -553,6 +658,11 @@ class ImplEngine(object):
             resp, max_size, ver = self.engine.process_request(msg, cred)
         except exceptions.KmipError as e:
             return {"rejected": e.reason.value, "msg": str(e)}
+        finally:
+            if not self.scripted:
+                # hand the recorded backend answers to the model as its oracle
+                for it, rec in zip(req["items"], self._recorded):
+                    it["crypto"] = rec
         out = []
         for bi in resp.batch_items:
             r = {"op": bi.operation.value.value,
